@@ -412,6 +412,10 @@ func mutate(t *rapid.T, s *sim.Scenario, b *types.Block, parent *types.Block, bl
 		}
 		return "gasUsed: off", true
 	case 10:
+		if rapid.IntRange(0, 3).Draw(t, "absurdTime") == 0 {
+			h.Time = rapid.SampledFrom([]uint32{0, 1, 9999999, 10000000, 10000001}).Draw(t, "earlyTime")
+			return "time: early 1970", true
+		}
 		h.Time = parent.Time() - uint32(rapid.IntRange(1, 30).Draw(t, "before"))
 		return "time: before the parent", true
 	case 11:
